@@ -336,14 +336,6 @@ def h_discover(ctx, ndev, maxinst):
                                        E.eq(fr[-1][0], 0xFFFE1E), E.eq(fr[-2][0], 0xFFFE1E)),
               "scan not bracketed by START/STOP QUIESCENT MODE (broadcast)", key="discover/quiescent")
     got = dict(m.mapping)
-    if faulted:
-        # a fault may only remove entries (skip), never invent or alter one
-        for (d, i), t in got.items():
-            u = [x for x in devs if x[0] == d]
-            ok = bool(u) and i in u[0][1].instances and \
-                bool(E.and_(u[0][1].instances[i].enabled, E.eq(t, u[0][1].instances[i].itype)))
-            ctx.prove(ok, "mapping entry (%d,%d) is wrong after a fault" % (d, i), key="discover/fault-wrong-entry")
-        return "fault"
     want = {}
     for d, u, status, cnt in devs:
         healthy = bool(E.and_(E.not_(E.bit(status, 2)), E.not_(E.bit(status, 6))))
@@ -353,6 +345,27 @@ def h_discover(ctx, ndev, maxinst):
         for i in range(c):
             if u.instances[i].enabled:
                 want[(d, i)] = u.instances[i].itype
+    if faulted:
+        # a fault may only remove entries (skip), never invent or alter one ...
+        for (d, i), t in got.items():
+            u = [x for x in devs if x[0] == d]
+            ok = bool(u) and i in u[0][1].instances and \
+                bool(E.and_(u[0][1].instances[i].enabled, E.eq(t, u[0][1].instances[i].itype)))
+            ctx.prove(ok, "mapping entry (%d,%d) is wrong after a fault" % (d, i), key="discover/fault-wrong-entry")
+        # ... and the skip is confined to what the lost answer was about: the one instance for an
+        # instance-addressed query, the one device for a device-level query.  Everything else is an
+        # enabled instance of a healthy responding device and has to be recorded.
+        fcmd = faulted[0][0]
+        fx = fcmd.frame.as_integer
+        fdev = (fx >> 17) & 0x3F
+        finst = (fx >> 8) & 0xFF if type(fcmd).__name__ in ("QueryInstanceEnabled", "QueryInstanceType") else None
+        for (d, i), t in want.items():
+            if d == fdev and (finst is None or i == finst):
+                continue
+            ctx.prove((d, i) in got, "a lost answer to %s (device %d%s) also dropped instance (%d,%d)"
+                      % (type(fcmd).__name__, fdev, "" if finst is None else ", instance %d" % finst, d, i),
+                      key="discover/fault-dropped-other:" + type(fcmd).__name__)
+        return "fault"
     ctx.prove(set(got) == set(want), "recorded instances %s, expected %s" % (sorted(got), sorted(want)),
               key="discover/keys")
     for k in want:
